@@ -9,7 +9,8 @@ checks = []
 na = []
 for p in props:
     pid = p['id']
-    if pid in META and os.path.exists(os.path.join(root, 'props', pid.lower() + '.py')):
+    if pid in META and os.path.exists(os.path.join(root, 'props', pid.lower() + '.py')) \
+            and os.path.exists(os.path.join(root, 'evidence', pid + '.json')):
         m = META[pid]
         checks.append(dict(
             property_id=pid,
